@@ -7,8 +7,8 @@
 #[verifier::external_body] pub struct UserAttribute { v: u8 }
 #[verifier::external_body] pub struct SignedUserAttribute { v: u8 }
 pub struct SignedUser { pub id: UserId, pub signatures: Vec<Signature> }
-impl Serialize for UserId { uninterp spec fn ser(&self) -> Seq<u8>; }
-impl Serialize for UserAttribute { uninterp spec fn ser(&self) -> Seq<u8>; }
+impl Serialize for UserId { uninterp spec fn ser(&self) -> Seq<u8>; #[verifier::external_body] fn write_len(&self) -> (r: usize) { unimplemented!() } }
+impl Serialize for UserAttribute { uninterp spec fn ser(&self) -> Seq<u8>; #[verifier::external_body] fn write_len(&self) -> (r: usize) { unimplemented!() } }
 pub uninterp spec fn attribute_signed(s: SignedUserAttribute, a: UserAttribute, signer: Fingerprint, key: Seq<u8>) -> bool;
 impl UserId {
     pub uninterp spec fn spec_tag(&self) -> Tag;
